@@ -29,6 +29,11 @@ namespace vf {
         S_STOP_REMOVE = 72,        // remove_callback after the unlink attempt
         S_IQ_POP_LEFT = 80,        // contiguous_index_queue::pop_left between load and CAS
         S_IQ_POP_RIGHT = 81,
+        S_DQ_ANCHOR_LOADED = 90,   // deque push/pop: anchor loaded
+        S_DQ_PUSH_CAS_DONE = 91,   // deque push: anchor CAS succeeded, not yet stabilised
+        S_DQ_STABILIZE = 92,       // stabilize_left/right after loading the neighbour link
+        S_DQ_STABILIZE_CAS = 93,   // stabilize before the final anchor CAS
+        S_DQ_POP_RECHECK = 94,     // pop: anchor re-checked, before reading the neighbour link
         site_max = 200
     };
 }
